@@ -4,8 +4,10 @@
 //!     okm = uf(HKDF_SHA384, key = ikm, msg = [|salt|] ‖ salt ‖ info_0 ‖ info_1 ‖ ..) of length |okm| —
 //!     deterministic, collision-free over (ikm, salt, info) per output length [ideal KDF]. `expand_multi_info` equals `expand`
 //!     on the concatenation of the infos (as documented by the real crate).
-//!   Salt: `None`, the empty salt and an all-zero salt of at most one hash block are the same salt in HKDF (HMAC zero-pads
-//!     its key); the model normalises all three to the empty salt.
+//!   Salt: `None` and the empty salt are the same salt (length 0). NOT modelled: that HMAC zero-pads its key, so in reality an
+//!     all-zero salt (or a salt with trailing zero bytes) gives the same output as the shorter one; here they are different
+//!     salts. (A content-dependent normalisation would make the message length symbolic for CBMC — v1.local passes 16
+//!     symbolic nonce bytes as salt.) No code under test relies on the equivalence.
 //!   Not modelled: that a shorter output is a prefix of a longer one (output length is part of the function's identity);
 //!     the code under test always asks for 48 bytes. Only D with a 48-byte output (SHA-384) is modelled.
 #![no_std]
@@ -45,15 +47,7 @@ impl<D: OutputSizeUser> Hkdf<D> {
         k.push(ikm);
         let mut s = Buf::new();
         if let Some(salt) = salt {
-            let mut all_zero = salt.len() <= 128;
-            let mut i = 0;
-            while i < salt.len() {
-                all_zero &= salt[i] == 0;
-                i += 1;
-            }
-            if !all_zero {
-                s.push(salt);
-            }
+            s.push(salt);
         }
         Hkdf { ikm: k, salt: s, _d: PhantomData }
     }
